@@ -90,6 +90,31 @@ char *strdup(const char *s)
     return r;
 }
 
+/* ---- memmove -------------------------------------------------------------------
+ * cbmc's own memmove model (symbolic length, overlapping regions of one object) exhausts memory on
+ * SAT and times out on z3 in the prepend/trim units.  This model is an OVER-APPROXIMATION: both
+ * regions are checked exactly as the built-in model checks them, the destination region then holds
+ * ARBITRARY bytes except at the relative positions 0, n-1, n-2 and the ghost positions vg_k, vg_k2,
+ * which hold the bytes the source held BEFORE the call (overlap-safe).  The real memmove preserves
+ * more, so whatever is proved against this model holds for the real one; because vg_k / vg_k2 are
+ * arbitrary, "byte vg_k is moved" is the universally quantified statement. */
+#ifndef VSTR_BUILTIN_MEMMOVE
+void *memmove(void *dst, const void *src, size_t n)
+{
+    __CPROVER_assert(n == 0 || __CPROVER_r_ok(src, n), "memmove source region readable");
+    __CPROVER_assert(n == 0 || __CPROVER_w_ok(dst, n), "memmove destination region writeable");
+    if (n > 0) {
+        const char *s = (const char *) src;
+        char *d = (char *) dst;
+        size_t i0 = (vg_k < n) ? vg_k : 0, i1 = (vg_k2 < n) ? vg_k2 : 0, i2 = n - 1, i3 = (n >= 2) ? n - 2 : 0;
+        char b = s[0], b0 = s[i0], b1 = s[i1], b2 = s[i2], b3 = s[i3];
+        __CPROVER_havoc_slice(d, n);
+        d[0] = b; d[i0] = b0; d[i1] = b1; d[i2] = b2; d[i3] = b3;
+    }
+    return dst;
+}
+#endif
+
 /* ---- search family (pure) -----------------------------------------------
  * strchr/index: NULL (only if c is not the terminator) or a position <= strlen holding c, first
  * such position as far as the ghost instance vg_k can tell.  strrchr/rindex: last such position.
